@@ -56,6 +56,10 @@ type op struct {
 	Internal bool     `json:"internal"`
 	Allow    bool     `json:"allow"`
 	Commit   bool     `json:"committed"`
+	// ObjsEmpty / ActsEmpty: when the policy lists no objects / actions, store a non-nil empty
+	// slice instead of an absent (nil) one
+	ObjsEmpty bool `json:"objs_empty"`
+	ActsEmpty bool `json:"acts_empty"`
 	// Reuse: pass the very slice of the previous Enforce call again (callers check one
 	// object list for several subjects / before and after a change) when it was built
 	// for the same list of objects
@@ -309,6 +313,12 @@ func runCase(c tcase) (res result) {
 			}
 			for _, a := range o.Acts {
 				p.Actions = append(p.Actions, access.Action(a))
+			}
+			if len(o.Objs) == 0 && o.ObjsEmpty {
+				p.Objects = []ontology.ID{}
+			}
+			if len(o.Acts) == 0 && o.ActsEmpty {
+				p.Actions = []access.Action{}
 			}
 			er = pol.NewWriter(tx, o.Allow).Create(ctx, p)
 		case "delpolicy":
